@@ -267,14 +267,19 @@ def _enclosing_def(node: ast.AST, parents: dict[int, ast.AST]):
 
 
 # ------------------------------------------------------------------------------------------------ driver
-def fold_new_helpers(tree: ast.Module, module: str, known: set[tuple[str, str]] | None = None, max_rounds: int = 60) -> list[str]:
+def fold_new_helpers(tree: ast.Module, module: str, known: set[tuple[str, str]] | None = None, max_rounds: int = 60,
+                     foreign: list[tuple[str, str, ast.AST, str]] | None = None) -> list[str]:
+    """*foreign*: new methods defined in OTHER modules (module, qualname, def node, class name) whose call sites in this tree are folded too (the definitions stay where
+    they are).  A call site is recognised by the method's name, so only names defined exactly once in the whole library are passed in."""
     known = known if known is not None else load_known()
     log: list[str] = []
     for _ in range(max_rounds):
         changed = False
         parents = _parents(tree)
-        for qn, fn, container, cls, outer in _defs(tree):
-            if not _is_candidate(qn, fn, cls, outer, module, known):
+        own = [(qn, fn, container, cls, outer, module) for qn, fn, container, cls, outer in _defs(tree)]
+        theirs = [(qn_, fn_, None, cls_, None, mod_) for mod_, qn_, fn_, cls_ in (foreign or [])]
+        for qn, fn, container, cls, outer, home in own + theirs:
+            if not _is_candidate(qn, fn, cls, outer, home, known):
                 continue
             is_method = cls is not None and outer is None
             static = any(ast.unparse(d) == 'staticmethod' for d in fn.decorator_list)
@@ -307,10 +312,14 @@ def fold_new_helpers(tree: ast.Module, module: str, known: set[tuple[str, str]] 
                     _fold_statement_function(fn, body, refs, parents, is_method, static)
                     how = 'statement'
             except NotInlinable as e:
-                log.append(f'{module}:{qn} left alone ({e})')
-                known = set(known) | {(module, qn)}
+                log.append(f'{home}:{qn} left alone ({e})')
+                known = set(known) | {(home, qn)}
                 continue
             public = outer is None and not fn.name.startswith('_')
+            if home != module:
+                log.append(f'{home}:{qn} folded into its {len(refs)} use(s) in {module} ({how} form) — the definition stays in its own module')
+                changed = True
+                break
             if not public:
                 container[:] = [x for x in container if x is not fn] or [ast.copy_location(ast.Pass(), fn)]
             log.append(f'{module}:{qn} folded into its {len(refs)} use(s) ({how} form)' + (' — kept as a unit: a new public method can also be called from outside' if public else ''))
@@ -603,6 +612,8 @@ def _hoist_test_calls(fn, refs: list[ast.AST], parents) -> bool:
             continue
         node: ast.AST = p
         up = parents.get(id(node))
+        if isinstance(fn, ast.AsyncFunctionDef) and not isinstance(up, ast.Await):
+            continue  # a coroutine object handed to create_task() / gather(): not a call that can be folded in place, leave it where it is
         if isinstance(up, ast.Await):
             node, up = up, parents.get(id(up))
         holder = up
@@ -629,9 +640,29 @@ def _hoist_test_calls(fn, refs: list[ast.AST], parents) -> bool:
         st_node, st_par = node, parents.get(id(node))
         under_lazy = False
         while st_par is not None and not isinstance(st_par, ast.stmt):
-            if isinstance(st_par, (ast.Lambda, ast.ListComp, ast.SetComp, ast.DictComp, ast.GeneratorExp, ast.IfExp, ast.BoolOp)):
+            if isinstance(st_par, ast.BoolOp) and st_par.values and st_par.values[0] is st_node:
+                pass  # the first operand of and / or is always evaluated
+            elif isinstance(st_par, (ast.Lambda, ast.ListComp, ast.SetComp, ast.DictComp, ast.GeneratorExp, ast.IfExp, ast.BoolOp)):
                 under_lazy = True
             st_node, st_par = st_par, parents.get(id(st_par))
+        # `if A or <..call..>: S`  ->  `if A: S` / `elif <..call..>: S`   and   `if A and <..call..>: S`  ->  `if A: if <..call..>: S`   (no else branch): the call's operand
+        # becomes a first operand, from where it can be hoisted
+        if isinstance(st_par, ast.If) and not st_par.orelse and isinstance(st_par.test, ast.BoolOp) and st_node is st_par.test:
+            bo = st_par.test
+            k = next((i for i, v in enumerate(bo.values) if any(x is node for x in ast.walk(v))), 0)
+            if k > 0:
+                def mk(vals):
+                    return vals[0] if len(vals) == 1 else ast.copy_location(ast.BoolOp(op=bo.op, values=list(vals)), bo)
+                first, rest = mk(bo.values[:k]), mk(bo.values[k:])
+                if isinstance(bo.op, ast.Or):
+                    st_par.test = first
+                    st_par.orelse = [ast.copy_location(ast.If(test=rest, body=copy.deepcopy(st_par.body), orelse=[]), st_par)]
+                else:
+                    st_par.test = first
+                    st_par.body = [ast.copy_location(ast.If(test=rest, body=st_par.body, orelse=[]), st_par)]
+                ast.fix_missing_locations(st_par)
+                changed = True
+                continue
         direct = isinstance(st_par, (ast.Expr, ast.Assign, ast.AnnAssign, ast.AugAssign, ast.Return)) and getattr(st_par, 'value', None) is node
         if (not under_lazy and not direct and st_par is not None and not isinstance(holder, (ast.While,)) and not (isinstance(holder, ast.BoolOp) and isinstance(parents.get(id(holder)), ast.While))
                 and (isinstance(st_par, (ast.Expr, ast.Assign, ast.AnnAssign, ast.AugAssign, ast.Return, ast.Raise, ast.Assert))
